@@ -274,7 +274,9 @@ def run_case(case):
                     if os.path.exists(os.path.join(dd, fn)):
                         os.remove(os.path.join(dd, fn))
                 acc.count('history:same_path_reused')
-        bam = write_bam(os.path.join(dd, 'in.bam'), gen.refs, recs)
+        ties = r if case['i'] % 2 else None
+        acc.count('input:ties_in_random_order', 1 if ties else 0)
+        bam = write_bam(os.path.join(dd, 'in.bam'), gen.refs, recs, tie_rng=ties)
         out = os.path.join(dd, 'out', 'tagged.bam')
         os.makedirs(os.path.dirname(out))
         # the form of the paths is not under the tool's control: absolute, relative to the working directory, with a leading './'
